@@ -481,6 +481,15 @@ def AffineGlobal (K : Mat) (a : Vec) (b : Rat) (p bc : List Rat) : Prop :=
 
 def isBoundary (f : Nat) : Bool := (G.fcells f).length == 1
 
+def bcConstOK (b : Rat) (bc : List Rat) (f : Nat) : Prop :=
+  match G.fcells f with
+  | [(_, _)] => if G.dirAt f then bc.getD f 0 = b else bc.getD f 0 = 0
+  | _ => True
+
+/-- global data of a constant pressure `b`: cell values and Dirichlet values `b`, Neumann values `0` -/
+def ConstGlobal (K : Mat) (b : Rat) (p bc : List Rat) : Prop :=
+  (∀ c < G.numCells, G.permAt c = K ∧ p.getD c 0 = b) ∧ (∀ f < G.numFaces, G.bcConstOK b bc f)
+
 def affineBc (K : Mat) (a : Vec) (b : Rat) (f : Nat) : Rat :=
   match G.fcells f with
   | [(_, s)] => if G.dirAt f then affine a b (G.fcAt f) else -(s * nKg (G.fnAt f) K a)
